@@ -5,7 +5,7 @@
    instant p_exit, status p_status, interrupted waitpid calls p_eintr = [(call index, signal delay)];
    virtual time in Q).
    process_wait W E pid o tmo fuel t0 = (result, object afterwards, return instant, sleep() arguments). *)
-From PV Require Import C15.Spec C15.Proofs C15.ProofsProcs C15.ProofsTerm C15.ProofsOracle.
+From PV Require Import C15.Spec C15.Proofs C15.ProofsProcs C15.ProofsTerm C15.ProofsOracle C15.ProofsPopen.
 From Coq Require Import Permutation.
 Open Scope Z_scope.
 Open Scope Q_scope.
@@ -219,3 +219,44 @@ Theorem C15_wait_procs_meets_oracle_fuel : forall ps cb fuel order,
   spec_procs ps cb start (Some tm) exc gone alive (g_rc g) (g_cb g) (g_now g) = true.
 Proof. exact wait_procs_meets_oracle_fuel. Qed.
 Print Assumptions C15_wait_procs_meets_oracle_fuel.
+
+(* 10. psutil.Popen (a Process wrapping a subprocess.Popen; state: subprocess-side returncode `sub_rc`, psutil-side
+   cache).  Once a status has been collected by EITHER side -- 0 included -- wait() returns it at once, for every
+   kernel (ECHILD, a stranger owning the recycled PID ...), timeout and fuel: no kernel call, no sleep, no time *)
+Theorem C15_popen_wait_collected : forall W E pid st tmo fuel t0 v,
+  sub_rc st = Some v -> popen_wait W E pid st tmo fuel t0 = (RInt v, st, t0, []).
+Proof. exact popen_wait_collected. Qed.
+Print Assumptions C15_popen_wait_collected.
+
+(* ... along every later history of subprocess-side collections, psutil waits over arbitrary kernels and pauses *)
+Theorem C15_popen_sticky : forall pid h st t v,
+  sub_rc st = Some v ->
+  Forall (at_once v) (fst (run_pev pid h st t)) /\ snd (run_pev pid h st t) = st.
+Proof. exact popen_sticky. Qed.
+Print Assumptions C15_popen_sticky.
+
+(* every order of reaping: (a) poll()/communicate()/leaving `with` collected v first *)
+Theorem C15_popen_first_status_by_reap : forall pid st v h t,
+  sub_rc st = None ->
+  Forall (at_once v) (fst (run_pev pid h (popen_collect st v) t)).
+Proof. exact popen_first_status_by_reap. Qed.
+Print Assumptions C15_popen_first_status_by_reap.
+
+(* (b) psutil's own wait() collected first, from the real child: it is the child's status, it is handed to the
+   subprocess side, and every later wait returns it whatever became of the PID *)
+Theorem C15_popen_first_status_by_wait : forall p c0 tmo fuel t0 z st' t' sl,
+  wf_proc p = true ->
+  popen_wait (k_waitpid p) (k_exists p) (p_pid p) {| sub_rc := None; ps_obj := fresh c0 |} tmo fuel t0
+    = (RInt z, st', t', sl) ->
+  z = spec_code (p_status p) /\
+  forall h t, Forall (at_once z) (fst (run_pev (p_pid p) h st' t)).
+Proof. exact popen_first_status_by_wait. Qed.
+Print Assumptions C15_popen_first_status_by_wait.
+
+(* a wait that does not return a status (TimeoutExpired, ValueError) leaves the subprocess side uncollected *)
+Theorem C15_popen_wait_no_status : forall W E pid st tmo fuel t0 r st' t' sl,
+  sub_rc st = None ->
+  popen_wait W E pid st tmo fuel t0 = (r, st', t', sl) ->
+  (forall z, r <> RInt z) -> sub_rc st' = None.
+Proof. exact popen_wait_no_status. Qed.
+Print Assumptions C15_popen_wait_no_status.
